@@ -1,7 +1,8 @@
 """C18 - an IOSpec lives exactly as long as a reference to its value.
 
 (T) tie: random histories over two models x three spaces (new_pandas / new_module / assignment / deletion /
-    update_pandas / update_module / add_bases / remove_bases / close) are run on the real modelx
+    update_pandas / update_module / add_bases / remove_bases / close / spec.sheet= / spec.path= / del_spec)
+    are run on the real modelx
     (drivers/iospec.py) and on the Gallina model (IOSpec/Model.v, [check_case]); compared after every
     operation: outcome, the IO manager's specs, Model.iospecs, get_spec(value) for every value created so far,
     every (owner, name) -> value reference with its derived flag, and the _check_sanity() outcome.
@@ -16,6 +17,9 @@ line in findings.d/C18.txt).  Trigger predicates are evaluated on the Python mir
   rebind_same    x = v / new_pandas(x, .., v) where x is the only reference to v (spec deleted)
   update_bound   update_pandas(old, new) with new already referenced in the model
   stale_derived  rebinding a name in a base while one sub overrides it and a later sub derives it
+  sheet_none     spec.sheet = None in an excel file shared with other specs
+  sheet_to_none  spec.sheet = None on a spec created with a sheet name (read_args keeps sheet_name=None)
+  read_override  (round trip only) two spaces define one name and share a sub space: read_model fails
   scalar / delspace / emptysheet / abspath : operations that are not in the generated vocabulary at all
 """
 import os, json, glob
@@ -24,6 +28,16 @@ from fw import Outcome
 from iospec_mirror import Mirror
 
 REQ = ["IOSpec.Model"]
+TRUSTED = ["harness/drivers/iospec.py (drives modelx, tokenises object identities), harness/props/C18.py (emitter, (P) oracle); "
+           "harness/iospec_mirror.py is NOT trusted (generation and trigger predicates only)"]
+ASSUMPTIONS = [
+    "derived references are recomputed from the inheritance graph in the model; the implementation keeps them incrementally "
+    "(compared after every operation by the tie)",
+    "names/paths/sheets/values are abstracted to numbers; value kinds (DataFrame/Series, module, other) are carried by the operation",
+    "file I/O of pandas/openpyxl/importlib (write_model/read_model round trip) is checked on the implementation only",
+    "generated histories avoid the recorded defects' triggers (dup, rebind_same, update_bound, stale_derived, scalar, delspace, "
+    "emptysheet, abspath, read_override, sheet_none, sheet_to_none) and never touch a closed model",
+]
 SP_NAMES = [10, 11, 12]
 GL_NAMES = [30, 31]
 PANDAS_PATH = {0: "csv", 1: "csv", 2: "excel", 3: "excel"}
@@ -75,6 +89,29 @@ def gen_case(rng, tier, filtered):
 
     def propose():
         r = rng.random()
+        if r < 0.09:
+            m = open_model()
+            sv = sorted({sp["val"] for io in mir.ios if io["grp"] == m for sp in io["specs"]})
+            lv = live_values(m)
+            if sv and rng.random() < 0.9:
+                v = rng.choice(sv)
+            elif lv:
+                v = rng.choice(lv)
+            else:
+                return None
+            q = rng.random()
+            if q < 0.45:
+                sp = mir.get_spec(m, v)
+                taken = [c["sheet"] for c in mir.io_of(sp["id"])["specs"] if c["id"] != sp["id"]] if sp else []
+                if taken and rng.random() < 0.5:
+                    return {"op": "setsheet", "m": m, "v": v, "sh": rng.choice(taken)}     # clash: must be refused
+                return {"op": "setsheet", "m": m, "v": v, "sh": rng.choice([1, 2, 3, 1, 2, 3, None])}
+            if q < 0.8:
+                return {"op": "setpath", "m": m, "v": v, "p": rng.randrange(6)}
+            if v >= 50:
+                return None      # a module object without a spec cannot be saved (pickle): not generated
+            return {"op": "delspec", "m": m, "v": v}
+        r = (r - 0.09) / 0.91
         if r < 0.30:
             m, s = pick_owner()
             p = rng.choice([0, 1, 2, 2, 3, 3]) if rng.random() < 0.95 else rng.choice(MOD_PATHS)
@@ -240,6 +277,12 @@ def op_term(o):
         return "RemoveBase %s %s %s" % (num(o["m"]), num(o["s"]), num(o["b"]))
     if k == "close":
         return "Close %s" % num(o["m"])
+    if k == "setsheet":
+        return "SetSheet %s %s %s" % (num(o["m"]), num(o["v"]), optn(o["sh"]))
+    if k == "setpath":
+        return "SetPath %s %s %s" % (num(o["m"]), num(o["v"]), num(o["p"]))
+    if k == "delspec":
+        return "DelSpec %s %s" % (num(o["m"]), num(o["v"]))
     raise ValueError(k)
 
 
@@ -300,18 +343,31 @@ def oracle(case, res):
         if ob.get("crash"):
             bad.append((k, "observing the model raised: %r" % (ob["crash"],)))
         # persistence: a spec may go only when no reference holds its value any more
+        # (specs are identified by (model, value): sheet and path may be changed by their setters)
         for v in prev["mgr"]:
             if v[0] in closed:
                 continue
-            now = [w for w in mgr if w[:4] == v[:4]]
             val = v[4]
-            if o["op"] == "update" and ob["out"] == "ok" and o["m"] == v[0] and o["old"] == val:
+            moved = o["op"] == "update" and ob["out"] == "ok" and o["m"] == v[0] and o["old"] == val
+            if moved:
                 val = o["new"]
-                if not now or now[0][4] != val:
+            now = [w for w in mgr if w[0] == v[0] and w[4] == val]
+            if moved:
+                if not now or now[0][1:4] != v[1:4]:
                     bad.append((k, "update_pandas/module did not carry spec %r over to the new value" % (v,)))
+                continue
+            if o["op"] == "delspec" and ob["out"] == "ok" and (o["m"], o["v"]) == (v[0], val):
+                if now:
+                    bad.append((k, "del_spec left the spec %r" % (v,)))
                 continue
             if not now and any((r[0] == v[0] or v[0] == 99) and r[3] == val for r in refs):
                 bad.append((k, "spec %r was deleted although its value is still referenced: %r" % (v, refs)))
+            if now and o["op"] not in ("setsheet", "setpath") and now[0][1:4] != v[1:4]:
+                bad.append((k, "spec %r changed its file location without being asked: %r" % (v, now[0])))
+        if o["op"] in ("setsheet", "setpath", "delspec") and ob["out"] == "err":
+            for part in ("mgr", "api", "refs"):
+                if ob[part] != prev[part]:
+                    bad.append((k, "rejected %s changed %s: %r -> %r" % (o["op"], part, prev[part], ob[part])))
         if o["op"] in ("newpandas", "newmodule"):
             if ob["out"] == "err":
                 for part in ("mgr", "api", "refs"):
@@ -323,6 +379,8 @@ def oracle(case, res):
                 if not any(r[0] == o["m"] and r[1] == o["s"] and r[2] == o["n"] and r[3] == o["v"] for r in refs):
                     bad.append((k, "successful creation left no reference %r" % ((o["m"], o["s"], o["n"]),)))
         prev = ob
+    if res.get("close_exc"):
+        bad.append((len(case["ops"]) - 1, "closing the models after the history raised %s" % res["close_exc"]))
     for rt in res.get("rt") or []:
         for e in rt["rep"]:
             if not e["ok"]:
@@ -382,6 +440,12 @@ def script_of(case, upto=None):
             L.append("step(lambda: %s.%s(%s.spaces[%r]))" % (own, "add_bases" if k == "addbase" else "remove_bases", mod, NAMES[o["b"]]))
         elif k == "close":
             L.append("step(lambda: %s.close())" % mod)
+        elif k == "setsheet":
+            L.append("step(lambda: setattr(%s.get_spec(V[%d]), 'sheet', %r))" % (mod, o["v"], None if o["sh"] is None else SHEETS[o["sh"]]))
+        elif k == "setpath":
+            L.append("step(lambda: setattr(%s.get_spec(V[%d]), 'path', %r))" % (mod, o["v"], PATHS[o["p"]]))
+        elif k == "delspec":
+            L.append("step(lambda: %s.del_spec(V[%d]))" % (mod, o["v"]))
         elif k == "delspace":
             L.append("step(lambda: delattr(%s, %r))" % (mod, NAMES[o["s"]]))
     L.append("for i, m in M.items(): print(i, m.iospecs)")
@@ -458,10 +522,11 @@ def run(tier, seed, rng):
         b = oracle(c, r)
         if b:
             pf[i] = b
-    for i in bad:
-        out.tie_mismatches.append({"case": cases[i]["ops"], "impl": [dict(o, mgr=o["mgr"]) for o in res[i]["obs"]][-3:],
+    for j, i in enumerate(bad):
+        out.tie_mismatches.append({"case": cases[i]["ops"], "kinds": cases[i].get("kinds", {}),
+                                   "impl": res[i]["obs"][-3:],
                                    "detail": "IOSpec/Model.v and the implementation disagree (first differing step: %s)"
-                                             % first_diff(cases[i], res[i])})
+                                             % (first_diff(cases[i], res[i]) if j < 2 else "not searched")})
     for i, b in sorted(pf.items())[:10]:
         k, text = b[0]
         out.p_failures.append({"case": cases[i]["ops"][:k + 1], "detail": "step %d (%r): %s" % (k, cases[i]["ops"][k], text),
@@ -492,8 +557,10 @@ def run(tier, seed, rng):
     outs = {"ok": 0, "err": 0}
     for c, r in zip(cases, res):
         for o, ob in zip(c["ops"], r["obs"]):
-            kinds[o["op"]] = kinds.get(o["op"], 0) + 1
+            key = "%s:%s" % (o["op"], ob["out"])
+            kinds[key] = kinds.get(key, 0) + 1
             outs[ob["out"]] += 1
+    kinds = dict(sorted(kinds.items()))
     out.distribution = {"cases": len(cases), "corpus": len(corpus), "witnesses": len(witnesses), "ops": kinds,
                         "outcomes": outs, "focus": stats, "filtered_by_trigger": filtered,
                         "roundtrips": sum(len(r.get("rt") or []) for r in res)}
